@@ -201,17 +201,19 @@ type c05Premature struct {
 }
 
 type c05Exported struct {
-	input     SX // model input without the party inputs
-	listing   SX
-	premature []c05Premature
-	nSteps    int
-	nGC       int
-	nAlias    int
-	nCirc     int
-	gates     int
-	ssaText   string
-	outBits   []int
-	n0, n1    int
+	input        SX // model input without the party inputs
+	listing      SX
+	premature    []c05Premature
+	nSteps       int
+	nGC          int
+	nAlias       int
+	nCirc        int
+	gates        int
+	ssaText      string
+	constsTabled bool
+	untabled     []string
+	outBits      []int
+	n0, n1       int
 }
 
 // c05Export compiles src and exports it.
@@ -255,8 +257,10 @@ func c05Export(src string, sizes [][]int) (ex *c05Exported, err error) {
 		consts = append(consts, c.Const)
 	}
 	sort.Slice(consts, func(i, j int) bool { return strings.Compare(consts[i].Name, consts[j].Name) == -1 })
+	tabled := map[int]bool{}
 	var constSX []SX
 	for _, c := range consts {
+		tabled[keys.num(c)] = true
 		bits := make([]bool, c.Type.Bits)
 		for b := range bits {
 			bits[b] = c.Bit(types.Size(b))
@@ -303,7 +307,21 @@ func c05Export(src string, sizes [][]int) (ex *c05Exported, err error) {
 			continue
 		}
 		var ins []SX
-		for _, in := range instr.In {
+		for pos, in := range instr.In {
+			// constant operands in value positions that are not in
+			// prog.Constants (consts_tabled of the model)
+			if in.Const && !tabled[keys.num(in)] {
+				valuePos := true
+				switch instr.Op {
+				case ssa.Concat, ssa.Amov:
+					valuePos = pos <= 1
+				case ssa.Lshift, ssa.Rshift, ssa.Srshift, ssa.Slice, ssa.Mov, ssa.Smov:
+					valuePos = pos == 0
+				}
+				if valuePos {
+					ex.untabled = append(ex.untabled, fmt.Sprintf("%s:%d", instr.Op, pos))
+				}
+			}
 			ins = append(ins, keys.val(in))
 			if !in.Const {
 				info.ins = append(info.ins, keys.num(in))
@@ -370,6 +388,7 @@ func c05Export(src string, sizes [][]int) (ex *c05Exported, err error) {
 		return nil, fmt.Errorf("value identity: %s", keys.bad)
 	}
 	ex.nSteps = orig
+	ex.constsTabled = len(ex.untabled) == 0
 	for _, o := range prog.Outputs {
 		ex.outBits = append(ex.outBits, int(o.Type.Bits))
 	}
